@@ -14,7 +14,7 @@ import tlc
 import xmlsec_model
 
 MARKERS = ['secret-given-é', 'secret-sn', 'secret-subject', 'urn:oid:2.5.4.42', 'urn:oid:2.5.4.4"', 'givenName']
-ENC_KEYS = {'matchFirst': ('kSpEnc1', 'kSpEnc2'), 'matchSecond': ('kSpEnc2', 'kSpEnc1'), 'none': ('kSpEnc2',)}
+ENC_KEYS = {'matchFirst': ('kSpEnc1', 'kSpEnc2'), 'matchSecond': ('kSpEnc2', 'kSpEnc1'), 'none': ('kSpEnc2',), 'perRequest': ('kSpEnc2',)}
 
 
 def encodings(marker):
@@ -53,6 +53,8 @@ def build_attacker(scn):
     elif inner == 'notyet':
         a['cond']['nb'] = env.ts(now + 3600)
         a['cond']['nooa'] = env.ts(now + 7200)
+    elif inner == 'expired_offset':
+        a['authn'] = dict(a['authn'], session_nooa=env.ts(now - 86400 * 400, 'noZ') + '+00:00')
     elif inner == 'audience':
         a['cond']['audiences'] = [[env.SP2]]
     elif inner == 'solicit':
@@ -106,8 +108,10 @@ def replay(case):
                 idp.parse_authn_request(sb.b64(req), env.BINDING_POST)
             except Exception:
                 pass
-        opts = dict(sign_response=scn['signResp'], sign_assertion=scn['signAssert'], encrypt_assertion=True,
+        opts = dict(sign_response=scn['signResp'], sign_assertion=scn['signAssert'], encrypt_assertion=scn.get('encMain', True),
                     encrypted_advice_attributes=scn['advice'], encrypt_assertion_self_contained=scn['selfContained'])
+        if scn['keys'] == 'perRequest':
+            opts['encrypt_cert_assertion'] = env.cert_b64('kA')
         if scn.get('via') == 'config':
             idp = spc.idp_for(**opts)          # the options stand in the configuration, the call names none of them
             opts = {}
@@ -132,7 +136,10 @@ def replay(case):
         doc = build_attacker(scn)
     sp = spc.sp_for(enc_keys=ENC_KEYS[scn['keys']], want_response_signed=False, want_assertions_signed=scn['wantAssert'],
                     want_assertions_or_response_signed=False)
-    obs = spc.observe(sp, doc, env.BINDING_POST, {'id1': '/', 'id2': '/2'})
+    per_request = None
+    if scn['keys'] == 'perRequest':
+        per_request = {'id1': [{'key': open(env.keyfile('kA')).read()}, {'key': open(env.keyfile('kB')).read()}]}
+    obs = spc.observe(sp, doc, env.BINDING_POST, {'id1': '/', 'id2': '/2'}, outstanding_certs=per_request)
     out.update(verdict=obs['verdict'], exc=obs.get('exc'), msg=obs.get('msg'), name_id=obs.get('name_id'), doc=doc,
                calls=obs['calls'])
     return out
@@ -157,9 +164,11 @@ def main():
             continue
         built += 1
         if case['confidential']:
+            if case.get('clearBySubject'):
+                out['leaks'] = [m for m in out['leaks'] if m != 'secret-subject']       # the main assertion is plain by request
             if out['leaks']:
                 chk.violation(dict(scn, kind='leak'), 'emitted response shows %s of the encrypted assertion in clear' % out['leaks'], detail)
-            if out['opens'] != ['kSpEnc1']:
+            if out['opens'] != (['kA'] if scn['keys'] == 'perRequest' else ['kSpEnc1']):
                 chk.violation(dict(scn, kind='keys'), 'emitted response decrypts with %s (expected the SP encryption key only)' % out['opens'], detail)
         accepted = out['verdict'] == 'accept'
         nacc += accepted
@@ -167,7 +176,7 @@ def main():
             chk.violation(scn, 'identity accepted from an encrypted assertion that must not yield one (%s, keys %s)' % (scn['inner'], scn['keys']), detail)
         elif case['mustAccept'] and not accepted:
             chk.violation(scn, 'well-formed encrypted assertion rejected (%s %s): %s' % (out.get('exc'), out.get('msg'), json.dumps(scn, sort_keys=True)), detail)
-        elif accepted != (case['model'] == 'accept'):
+        elif accepted != (case['model'] == 'accept') and not case.get('clearBySubject'):
             chk.note('drift: SP says %s, pipeline model says %s for %s' % (out['verdict'], case['model'], json.dumps(scn, sort_keys=True)))
         chk.sample({'scn': scn, 'observed': out['verdict'], 'opens': out['opens'], 'leaks': out['leaks']}, limit=5)
     if (nacc == 0 or built == 0) and not chk.violations:
